@@ -13,6 +13,71 @@ TRUSTED = [
 ]
 
 
+# recursive call graphs, mirrored by coq/Ana/InterBURec.v (proved sound: Props/Properties_C10_rec.v)
+CORPUS_BUREC = [
+    # mutual recursion: g is summarised first (its call of f forgets the lhs), f reuses g's summary: r in [0, 7]
+    "inter 3 7 | F 0 1 0 I 0 O 0 | F 1 4 3 I 1 0 O 1 1 | F 2 1 0 I 1 3 O 1 4 | B 0 0 assign 5 E 0 5 ; call 1 1 6 1 5 | B 1 1 assume C le E 1 -1 0 1 ; arith sub 2 0 k 1 ; call 2 1 1 1 2 | B 1 2 assume C le E 1 1 0 0 ; assign 1 E 0 0 | B 2 0 call 1 1 4 1 3 ; assign 4 E 0 7 | E 1 0 1 0 2 1 3 2 3",
+    # the same component entered through g: the depth-first search finishes f first, the summaries swap roles
+    "inter 3 7 | F 0 1 0 I 0 O 0 | F 1 4 3 I 1 0 O 1 1 | F 2 1 0 I 1 3 O 1 4 | B 0 0 assign 5 E 0 5 ; call 2 1 6 1 5 | B 1 1 assume C le E 1 -1 0 1 ; arith sub 2 0 k 1 ; call 2 1 1 1 2 | B 1 2 assume C le E 1 1 0 0 ; assign 1 E 0 0 | B 2 0 call 1 1 4 1 3 ; assign 4 E 0 7 | E 1 0 1 0 2 1 3 2 3",
+    # main belongs to a recursive component (f calls main): main has no summary, every member starts from top
+    "inter 2 4 | F 0 1 0 I 0 O 0 | F 1 4 3 I 1 0 O 1 1 | B 0 0 assign 2 E 0 3 ; call 1 1 3 1 2 | B 1 1 assume C le E 1 -1 0 1 ; call 0 0 0 ; assign 1 E 0 1 | B 1 2 assume C le E 1 1 0 0 ; assign 1 E 0 0 | E 1 0 1 0 2 1 3 2 3",
+    # a recursive function without exit block inside a component: no summary, its callers forget the lhs
+    "inter 3 6 | F 0 1 0 I 0 O 0 | F 1 1 -1 I 1 0 O 1 1 | F 2 1 0 I 1 0 O 1 1 | B 0 0 assign 2 E 0 4 ; call 2 1 3 1 2 | B 1 0 call 2 1 1 1 0 | B 2 0 assign 1 E 0 9 ; call 1 1 4 1 0",
+    # the lhs of a recursive call holds a value before the call: a callsite without summary must forget it
+    # (f(0) = 100, f(a) = f(a-1) + 1; keeping u = 5 gives the summary r in [6, 100], f(3) = 103)
+    "inter 2 6 | F 0 1 0 I 0 O 0 | F 1 4 3 I 1 0 O 1 1 | B 0 0 assign 4 E 0 3 ; call 1 1 5 1 4 | B 1 1 assume C le E 1 -1 0 1 ; arith sub 2 0 k 1 ; assign 3 E 0 5 ; call 1 1 3 1 2 ; arith add 1 3 k 1 | B 1 2 assume C le E 1 1 0 0 ; assign 1 E 0 100 | E 1 0 1 0 2 1 3 2 3",
+    # a non-recursive callee below a recursive component gets the join of the contexts of all activations
+    "inter 3 6 | F 0 1 0 I 0 O 0 | F 1 4 3 I 1 0 O 1 1 | F 2 1 0 I 1 0 O 1 1 | B 0 0 assign 2 E 0 2 ; call 1 1 3 1 2 | B 1 1 assume C le E 1 -1 0 1 ; arith sub 4 0 k 1 ; call 1 1 1 1 4 ; call 2 1 5 1 4 | B 1 2 assume C le E 1 1 0 0 ; assign 1 E 0 0 | B 2 0 arith add 1 0 k 1 | E 1 0 1 0 2 1 3 2 3",
+]
+
+
+def _reach_from_main(funcs):
+    seen, todo = {0}, [0]
+    while todo:
+        f = todo.pop()
+        for b in funcs[f]["blocks"]:
+            for st in b:
+                if st.startswith("call "):
+                    g = int(st.split()[1])
+                    if g not in seen:
+                        seen.add(g)
+                        todo.append(g)
+    return seen
+
+
+def gen_burec1(seed, tier):
+    """stream bu-rec1: corpus, scripted nested cycles of the call graph, random call graphs (80% with direct / mutual
+    recursion; 15% of those with a call of main from another function when some other function stays without callers).
+    Initial constraints only when every function is reachable from main (then the code's root is main or a member of
+    main's recursive component: the model's choice of the functions that get init is the code's)."""
+    rng = random.Random(seed)
+    quick = tier == "quick"
+    o0 = [("an", "bu"), ("bumodel", "rec")]
+    lines = []
+    for c in CORPUS_BUREC + inter.CORPUS_TD + inter.CORPUS_REC1B:
+        lines.append(inter.with_opts(c, o0))
+        lines.append(inter.with_opts(c, o0 + [("delay", 0), ("desc", 0)]))
+    for _ in range(30 if quick else 500):
+        nvn, fn = inter.nested_cycles(rng)
+        lines.append(inter.fmt_iprogram(nvn, fn, o0 + [("delay", rng.choice([0, 1, 2, 3])), ("desc", rng.choice([0, 1, 2]))]))
+    for _ in range(1200 if quick else 20000):
+        nv, funcs = inter.gen_iprogram(rng, recursive=rng.random() < 0.8)
+        if rng.random() < 0.15 and len(funcs) > 2:
+            called = set(int(st.split()[1]) for F in funcs for b in F["blocks"] for st in b if st.startswith("call "))
+            free = [f for f in range(1, len(funcs)) if f not in called]
+            cand = [f for f in range(1, len(funcs)) if f not in free[:1]]
+            if free and cand:
+                F = funcs[rng.choice(cand)]
+                blk = rng.choice(F["blocks"])
+                blk.insert(rng.randint(0, len(blk)), "call 0 0 0")
+        o = o0 + [("delay", rng.choice([0, 1, 2, 2, 3])), ("desc", rng.choice([0, 1, 2, 2, 3]))]
+        init = inter.rand_init(rng, nv)
+        if init is not None and len(_reach_from_main(funcs)) != len(funcs):
+            init = None
+        lines.append(inter.fmt_iprogram(nv, funcs, o, init))
+    return lines
+
+
 def run(rep, tier, seed):
     rep.cov["trusted_base"] = TRUSTED
     rep.cov["rule"] = ("the call graphs and bodies of C09 (shared variable names between caller and callee, swapped arguments, outputs "
@@ -23,8 +88,8 @@ def run(rep, tier, seed):
     rep.assumptions = [
         "theorems are about the models; the implementation is tied on generated programs",
         "well-formed functions as in C09 (inputs read-only, distinct formals, callsites match signatures, distinct lhs)",
-        "mirror: intervals for both phases, call graphs without cycles; with several functions without callers the model gives init to all of them (the implementation to one): initial constraints are generated only when main is the only one",
-        "recursive call graphs: not mirrored (member order inside an SCC); the implementation's tables and summaries are validated by the verified checker and searched by the oracle",
+        "mirror: intervals for both phases; call graphs without cycles (coq/Ana/InterBU.v, stream bu-nonrec) and any call graph, recursive components included (coq/Ana/InterBURec.v, stream bu-rec1: the member order inside a component is the finish order of the depth-first search of sccg.hpp over the call graph, mirrored; exact agreement required on every case; model proved sound for any call graph and any orders in Props/Properties_C10_rec.v); with several functions without callers the model gives init to all of them (the implementation to one): initial constraints are generated only when main is the only one (bu-nonrec) / every function is reachable from main (bu-rec1)",
+        "stream bu-rec: the implementation's tables and summaries on recursive call graphs are in addition validated by the verified checker and searched by the oracle",
         "summary domain different from the invariant domain (zones/intervals): no model; concrete oracle only (summaries checked on the intervals of the formals and of their pairwise differences)",
     ]
     vlib.prove(rep, extra_targets=["Extract/ExtractInter.vo"])
@@ -33,6 +98,11 @@ def run(rep, tier, seed):
                         key=lambda l: "program")
     if r:
         C09.validate_stream(rep, "bu-nonrec-validated", lines, r[0], True)
+    # recursive call graphs: exact correspondence with the mirror coq/Ana/InterBURec.v (proved sound for any call
+    # graph: Props/Properties_C10_rec.v) + oracle on every answer of the implementation
+    lines = gen_burec1(seed + 61, tier)
+    vlib.run_stream(rep, "bu-rec1", "inter", "inter", lines, oracle=inter.oracle, nontrivial=inter.nontrivial,
+                    key=lambda l: "program")
     for k, (name, strict) in enumerate((("bu-rec", True), ("bu-zones", False))):
         lines = inter.gen(seed + 51 + k, tier, name)
         hexe, impl = C09.harness_only(rep, name, lines)
